@@ -334,7 +334,7 @@ func (m *Module) onRespond(w *engine.World, tx *engine.TxRecord, op *engine.Op, 
 	if !tx.OK() {
 		// "answered once by the provider it was addressed to while it is still active": a
 		// well-formed answer of the addressed provider to an active request must be taken
-		if shape == "valid" && single && !a.Custom {
+		if shape == "valid" && single && (!a.Custom || wellFormedAnswer(rid, signer, a)) {
 			w.Violate("C08", "respond/rejected-valid", "answer of provider %s to its active request %s (expires at %d) was rejected at height %d: %s/%d %s",
 				signer, rid, rq.ExpH, tx.Height, tx.Codespace, tx.Code, tx.Log)
 		}
@@ -374,6 +374,26 @@ func (m *Module) onRespond(w *engine.World, tx *engine.TxRecord, op *engine.Op, 
 	rq.DoneAt = tx.Height
 	rq.Output = a.Output
 	w.Hit("svc.request_answered")
+}
+
+// wellFormedAnswer: documents supplied by another workload's responder are judged by the
+// module's own stateless validation (the message's ValidateBasic and the response document
+// check the handler applies to a non-empty output) - an answer that passes both is a
+// "well-formed answer" in the sense of the verdict above.
+func wellFormedAnswer(rid, signer string, a respondArgs) bool {
+	ok := false
+	_ = engine.Catch("ValidateBasic", func() error {
+		msg := &svctypes.MsgRespondService{RequestId: rid, Provider: signer, Result: a.Result, Output: a.Output}
+		if msg.ValidateBasic() != nil {
+			return nil
+		}
+		if len(a.Output) > 0 && svctypes.ValidateResponseOutput(a.Output) != nil {
+			return nil
+		}
+		ok = true
+		return nil
+	})
+	return ok
 }
 
 func provOf(r *request) string {
